@@ -274,5 +274,12 @@ func (c *conn) roundtrip(ctx context.Context, msg *kmip.RequestMessage) (*kmip.R
 	if err := c.send(ctx, msg); err != nil {
 		return nil, err
 	}
-	return c.recv(ctx)
+	resp, err := c.recv(ctx)
+	if err != nil {
+		// The request is out: whatever made the receive fail (an expired context
+		// included), its response may still arrive. Tear the connection down so
+		// that it can never be delivered to a later call.
+		_ = c.terminate(io.ErrClosedPipe)
+	}
+	return resp, err
 }
